@@ -12,7 +12,7 @@ package str
 // n random runes of the alphabet (the default one when none is given); a negative n gives the empty string. No fault for any input.
 //@ func RandStringRunes
 //@ props C13 C11
-//@ requires held(randSourceMu) == 0
+//@ env [the-lock-is-private-to-this-package-and-not-held-by-callers] held(randSourceMu) == 0
 //@ ensures [lock-released] held(randSourceMu) == 0
 //@ at call randSource.Intn assert [the-shared-random-source-is-used-under-its-lock] held(randSourceMu) != 0
 //@ at call randSource.Intn assert [index-into-the-alphabet] arg(a0) == len(letterRunes)
